@@ -143,12 +143,19 @@ pub struct NScenario {
     /// synthetic functions start with varied realistic first instructions
     #[serde(default)]
     pub prologues: bool,
+    /// distance between consecutive synthetic functions = extent of one of them
+    #[serde(default = "default_pitch")]
+    pub pitch: u64,
     pub lifetimes: Vec<NLifetime>,
     pub classes: Vec<String>,
 }
 
 const PS: u64 = 4096;
 const WIN: u64 = 0x800_0000;
+
+fn default_pitch() -> u64 {
+    16
+}
 
 fn id_for(k: usize) -> u32 {
     // low byte 0x5A: neither `true` nor `false`
@@ -206,8 +213,20 @@ pub fn generate(profile: &str, seed: u64, index: u64) -> NScenario {
         let p = roles.iter().position(|r| *r).unwrap();
         roles.swap(0, p);
     }
+    // a third of the layouts pack the functions as tightly as the 5-byte entry jump allows
+    // (`mov eax, id; ret` is 6 bytes; on Linux the trampoline is always within rel32 reach)
+    let tight = rng.chance(1, 3);
+    let pitch: u64 = if tight { 8 } else { 16 };
+    if tight {
+        classes.push("tight".into());
+    }
     let mut next = base + off;
-    for is_t in roles {
+    let n_roles = roles.len();
+    for (ri, is_t) in roles.into_iter().enumerate() {
+        if tight && ri + 1 == n_roles && ri > 0 && rng.chance(1, 4) {
+            // the last function of the arena: what lies behind it may not be mapped
+            next = base + tpages * PS - pitch;
+        }
         let k = funcs.len();
         funcs.push((next, id_for(k)));
         if is_t {
@@ -216,13 +235,13 @@ pub fn generate(profile: &str, seed: u64, index: u64) -> NScenario {
         } else {
             bystanders.push(k);
         }
-        next += 16;
+        next += pitch;
         if rng.chance(1, 6) {
             next = base + PS + rng.below(PS / 16) * 16;
         }
         // slots never overlap
-        while funcs.iter().any(|(a, _)| (*a as i64 - next as i64).abs() < 16) {
-            next += 16;
+        while funcs.iter().any(|(a, _)| (*a as i64 - next as i64).abs() < pitch as i64) {
+            next += pitch;
         }
     }
     // some synthetic targets are tail-call forwarders to a bystander
@@ -464,7 +483,8 @@ pub fn generate(profile: &str, seed: u64, index: u64) -> NScenario {
         targets,
         bystanders,
         forwards,
-        prologues: true,
+        prologues: !tight,
+        pitch,
         lifetimes,
         classes,
     }
@@ -532,6 +552,14 @@ impl<'a> Run<'a> {
             self.sc.funcs[tr.idx].0
         } else {
             real_target_addr(tr.idx)
+        }
+    }
+    /// extent of the function: what an installation may overwrite at most
+    fn slot_len(&self, t: usize) -> u64 {
+        if self.sc.targets[t].kind == "synth" {
+            self.sc.pitch
+        } else {
+            16
         }
     }
     fn target_orig(&self, t: usize) -> u32 {
@@ -642,7 +670,7 @@ impl<'a> Run<'a> {
             self.digest = mixd(mixd(mixd(self.digest, a), b), c);
         }
         // ---- C03: changed bytes only inside entry slots of named targets
-        let slots: Vec<(u64, u64)> = (0..self.sc.targets.len()).filter(|t| self.named[*t]).map(|t| (self.target_addr(t), self.target_addr(t) + 16)).collect();
+        let slots: Vec<(u64, u64)> = (0..self.sc.targets.len()).filter(|t| self.named[*t]).map(|t| (self.target_addr(t), self.target_addr(t) + self.slot_len(t))).collect();
         let mut now: BTreeMap<u64, u8> = BTreeMap::new();
         for (a, l) in &d.changed {
             let inside = slots.iter().any(|(s, e)| *a >= *s && a + l <= *e);
@@ -751,7 +779,7 @@ impl<'a> Run<'a> {
         let (faddr, fid) = self.sc.funcs[op.fake];
         let what = format!("lifetime {lt} op {oi} ({} on target #{t} at {:#x}{})", op.kind, self.target_addr(t), if op.fault.is_empty() { String::new() } else { format!(", fault {}", op.fault) });
         self.sh.note(PH_INSTALL, lt as u64, oi as u64, 0);
-        let slot_before: Vec<u8> = unsafe { std::slice::from_raw_parts(self.target_addr(t) as *const u8, 16).to_vec() };
+        let slot_before: Vec<u8> = unsafe { std::slice::from_raw_parts(self.target_addr(t) as *const u8, self.slot_len(t) as usize).to_vec() };
         let mut f = Faults::default();
         match op.fault.as_str() {
             "enomem" => f.enomem_all = true,
@@ -908,7 +936,7 @@ impl<'a> Run<'a> {
                 if msg.contains("Failed to allocate") {
                     self.probe("scan_exhausted");
                 }
-                let slot_now: Vec<u8> = unsafe { std::slice::from_raw_parts(self.target_addr(t) as *const u8, 16).to_vec() };
+                let slot_now: Vec<u8> = unsafe { std::slice::from_raw_parts(self.target_addr(t) as *const u8, self.slot_len(t) as usize).to_vec() };
                 if slot_now != slot_before {
                     self.v("failed-install-modified-function", &["C11", "C05", "C01"], format!("{what}: panicked with {msg:?} but the entry bytes changed from {:02x?} to {:02x?}", slot_before, slot_now));
                 }
